@@ -87,6 +87,14 @@ func init() {
 			e.covers[e.vsymName(a[0])]++
 			return nil
 		},
+		"vsymSched": func(e *Exec, c *frame, fn *ssa.Function, a []Value) Value {
+			// hand-over point: every other goroutine runs until none can make progress
+			if e.cur != nil {
+				e.unsupported("vsymSched called from a child goroutine")
+			}
+			e.runOthers()
+			return nil
+		},
 		"vsymCut": func(e *Exec, c *frame, fn *ssa.Function, a []Value) Value {
 			e.cut("harness:" + e.vsymName(a[0]))
 			return nil
